@@ -328,11 +328,11 @@ func VH_C11_tokens_Q() {
 }
 
 // C11-H2b: the same comparison for longer command sequences over the letters that manage the
-// current point and the subpath start (M m L l Z z): up to 4 (thorough 5) commands after the
+// current point and the subpath start (M m L l Z z): 3 or 4 commands after the
 // leading moveto, plain separator style.  Covers the current point after closepath for second
 // and later subpaths and relative movetos after a closepath.
 func VH_C11_tokens_subpaths_Q() {
-	vhC11TokensBody("MmLlZz", 0, vChoose(3, 4+vTier()))
+	vhC11TokensBody("MmLlZz", 0, vChoose(3, 4))
 }
 
 func vhC11TokensBody(letters string, style, ncmd int) {
